@@ -65,6 +65,8 @@ class LB(SymVal):
         return x
 
     def sym_truthy(self, ctx):
+        if not self.exact:
+            raise Undecided("low-bits mode: truthiness of a value that is not known to lie in [0, 2^32)")
         return self.v != 0
 
     def as_int(self):
@@ -178,6 +180,8 @@ class LB(SymVal):
     def sym_getattr(self, ctx, name):
         if name == "to_bytes":
             def to_bytes(length, byteorder="big", **kw):
+                if kw or byteorder not in ("big", "little"):
+                    raise Undecided("low-bits to_bytes with unmodelled arguments")
                 if not self.exact:
                     raise Undecided("low-bits mode: to_bytes of a value that is not known to lie in [0, 2^32)")
                 if length != 4:
